@@ -102,8 +102,46 @@ func c03Gen(seed uint64, tier string) *Plan {
 	for n := rng.Range(15, 60); n > 0; n-- {
 		b.add(Action{At: rng.Dur(time.Second, horizon-time.Second), Kind: "get_alerts"})
 	}
+	// Index-race mode: a rule of its own (source SRC, target TGT, equal job); source S1
+	// resolves before the inhibitor's cache GC (every 15 minutes from its start), a
+	// second source S2 with the same equal-label value arrives 1.5 s before that GC
+	// and the inhibitor's goroutine is suspended for 1 s before each of its index
+	// critical sections while it files S2: the GC removes S1 (the last member of the
+	// index entry) in between. Afterwards the target must be inhibited by S2.
+	race := horizon > 17*time.Minute && rng.Fork("race").Bool(0.25)
+	gcT := 15 * time.Minute
+	if race {
+		rr := rng.Fork("race2")
+		cfg.Inhibits = append(cfg.Inhibits, Inhibit{Source: []M{{"alertname", "=", "SRC"}}, Target: []M{{"alertname", "=", "TGT"}}, Equal: []string{"job"}})
+		s1 := map[string]string{"alertname": "SRC", "job": "jx", "instance": "i1"}
+		s2 := map[string]string{"alertname": "SRC", "job": "jx", "instance": "i2"}
+		tg := map[string]string{"alertname": "TGT", "job": "jx"}
+		long := 40 * time.Minute
+		zero := Dur(0)
+		t1 := gcT - rr.Dur(3*time.Minute, 6*time.Minute)
+		for _, x := range []Action{
+			{At: t1, Kind: "post", Alerts: []PAlert{{Labels: s1, EndOff: &long}}},
+			{At: t1 + rr.Dur(time.Second, 20*time.Second), Kind: "post", Alerts: []PAlert{{Labels: tg, EndOff: &long}}},
+			{At: gcT - rr.Dur(40*time.Second, 90*time.Second), Kind: "post", Alerts: []PAlert{{Labels: s1, EndOff: &zero}}},
+			{At: gcT - 1500*time.Millisecond, Kind: "post", Alerts: []PAlert{{Labels: s2, EndOff: &long}}, Str: "race"},
+		} {
+			at := b.add(x)
+			if x.Str != "race" {
+				b.add(Action{At: at + time.Millisecond, Kind: "get_alerts", Str: "after-post"})
+			}
+		}
+		for _, d := range []Dur{3 * time.Second, 10 * time.Second, 40 * time.Second} {
+			b.add(Action{At: gcT + d, Kind: "get_alerts"})
+		}
+		p.Holds = append(p.Holds, Hold{Site: "auto.lock", Match: "inhibit.index.Add", Nth: -1, From: gcT - 1600*time.Millisecond, To: gcT + 600*time.Millisecond, Delay: time.Second + 5})
+		p.LabelSets = append(p.LabelSets, s1, s2, tg)
+	}
 	if rng.Bool(0.25) {
-		at := b.add(Action{At: rng.Dur(time.Minute, horizon-time.Minute), Kind: "reload", Cfg: Pick(rng, []int{0, 0, 1})})
+		rat := rng.Dur(time.Minute, horizon-time.Minute)
+		if race && rat < gcT+time.Minute {
+			rat = gcT + rng.Dur(time.Minute, 2*time.Minute) // a reload restarts the inhibitor and with it the GC ticker
+		}
+		at := b.add(Action{At: rat, Kind: "reload", Cfg: Pick(rng, []int{0, 0, 1})})
 		// the inhibitor built by the reload loads the alerts that already exist; in
 		// half of these runs its goroutine is slowed down while it does (a suspension
 		// before every insert into a rule's source cache), and the API is asked right
@@ -150,6 +188,20 @@ func c03Check(p *Plan, r *RunResult) *Verdict {
 		}
 		if a.Kind != "get_alerts" || rec.Code != 200 {
 			continue
+		}
+		held := false
+		for _, e := range r.H.Events {
+			if e.Kind == "auto-hold" {
+				var name string
+				var d int64
+				fmt.Sscanf(e.Msg, "%s %d", &name, &d)
+				if rec.T >= e.T-time.Millisecond && rec.T <= e.T+Dur(d)+5*time.Millisecond {
+					held = true
+				}
+			}
+		}
+		if held {
+			continue // the inhibitor's goroutine was suspended by the simulator: it lags behind the submissions
 		}
 		var got []APIAlert
 		if jsonUnmarshal(rec.Resp, &got) != nil {
